@@ -88,6 +88,7 @@ type c19Spec struct {
 	Rev   bool    `json:"rev,omitempty"`
 	Cases [][]int `json:"cases"` // pattern indices per case
 	Body  int     `json:"body"`  // 0 expression, 1 block, 2 tracing call
+	Text  string  `json:"text,omitempty"`
 }
 
 var c19T = &Func{Name: "t", Params: []string{"i", "a", "b"}, Body: Blk(Pr(S("t"), V("i"), V("a"), V("b")), &Return{Bin("+", V("i"), N("100"))})}
@@ -169,7 +170,7 @@ func init() {
 			do := func(cases [][]int) {
 				for body := 0; body < 3; body++ {
 					s := c19Spec{Subj: subj, Cases: cases, Body: body}
-					c.Do(func() any { return s }, func() *fw.Violation { return c19Check(c, s, pats) })
+					c.Do(func() any { s.Text = c19Build(s, pats).source(); return s }, func() *fw.Violation { return c19Check(c, s, pats) })
 				}
 			}
 			// thorough tier: the large pattern alphabet is only combined pairwise
